@@ -313,18 +313,22 @@ def gen_doc(rnd, depth=0):
 
 def _vjob(job):
     tid, name, text, cm, front = job
-    cfg = {"commonmark_only": True} if cm else {"enable_extensions": EXT + (["attrs_block", "attrs_inline", "colon_fence", "html_admonition", "html_image"] if front in ("c03", "c03raw") else [])}
+    cfg = {"commonmark_only": True} if cm else {"enable_extensions": EXT + (["attrs_block", "attrs_inline", "colon_fence", "html_admonition", "html_image"] if front in ("c03", "c03raw", "c03sup") else [])}
     try:
         ev, why = R.events_of(text, cfg)
     except Exception as e:  # noqa: BLE001
         return {"id": tid, "skip": f"markdown-it raised {type(e).__name__}"}
     c03only = ev is None
-    if c03only and front not in ("c03", "c03raw"):
+    if c03only and front not in ("c03", "c03raw", "c03sup"):
         return {"id": tid, "skip": why}
-    ov = {"myst_commonmark_only": True} if cm else {"myst_enable_extensions": cfg["enable_extensions"], "myst_heading_anchors": 3 if front in ("c03", "c03raw") else 0}
+    ov = {"myst_commonmark_only": True} if cm else {"myst_enable_extensions": cfg["enable_extensions"], "myst_heading_anchors": 3 if front in ("c03", "c03raw", "c03sup") else 0}
     if front == "c03raw":
         # docutils' raw_enabled=False: every raw node is replaced by a warning node after the parse
         ov["raw_enabled"] = False
+        ev, c03only = None, True
+    if front == "c03sup":
+        # every MyST warning suppressed: no warning nodes; the tree must be as well formed as with them
+        ov["myst_suppress_warnings"] = ["myst", "ref"]
         ev, c03only = None, True
     ov["myst_highlight_code_blocks"] = False
     try:
@@ -332,6 +336,9 @@ def _vjob(job):
         nodes, par = R.project(doc)
         doc2, _ = R.parse_docutils(text, ov, transforms=True)
         ids = R.idinfo(doc2)
+        if front == "c03sup":
+            for e in ids:
+                e["warned"] = True      # (a missing target's warning is suppressed too: its refid is reported to nobody, by request)
         n2, p2 = R.project(doc2, messages=True)
         nw, pw = R.project(doc, messages=True)
     except Exception as e:  # noqa: BLE001
@@ -464,6 +471,8 @@ def trace_leg(ctx, focus, extra_docs=()):
         jobs.append((3 * n + 1, name, text, False, kind))
         if focus == "C03" and name.startswith(("stress", "gen")) and n % 2 == 0:
             jobs.append((3 * n + 2, name + "/raw_enabled=False", text, False, "c03raw"))
+        elif focus == "C03" and name.startswith(("stress", "gen")):
+            jobs.append((3 * n + 2, name + "/warnings suppressed", text, False, "c03sup"))
     outs = pmap(_vjob, jobs, chunksize=32)
     traces, keep, skipped = [], {}, {}
     for j, o in zip(jobs, outs):
